@@ -147,10 +147,17 @@ CLAIMS = {
              "linearizable: the commit log read as a sequential run of the specification returns exactly what every call returned and ends in "
              "exactly the visible state; each finished call committed once, between invocation and response (real-time order); publishers "
              "receive disjoint consecutive ranges; a visible message disappears only by a Delete that reports it; the locks are exclusive. "
+             "The one read that looks at the growing head twice, ConsumeByKey (next offset, then keys; the head's index grows under the writer "
+             "lock, not the read lock), is proved separately (Klev/HeadRead.lean): whatever publishes land between the two looks, in the source "
+             "order it returns the sequential answer of one of the two states and never steps over a message with the key "
+             "(consumeByKey_two_looks, consumeByKey_no_skip); in the other order it does neither (consumeByKey_other_order_counterexample = "
+             "defect D22: found, replayed on the real code, repaired). "
              "That the source follows this discipline is a set of regenerated go/ast facts (whole read calls under the read lock; every writer "
-             "access in Publish/Delete under the writer lock, following the statement structure; rollover swap under the write lock) and a "
-             "proof obligation. The statement about the real code over real schedules is decided by exploration judged by the Lean driver: "
-             "(a) every pause window of a held call x one or two other calls of every kind: the driver enumerates the sequential orders "
+             "access in Publish/Delete/NextOffset/Sync under the writer lock, following the statement structure; Sync's fsync and reported "
+             "offset in one critical section; rollover swap under the write lock; ConsumeByKey reads the next offset once, before the keys) and "
+             "a proof obligation. The statement about the real code over real schedules is decided by exploration judged by the Lean driver: "
+             "(a) every pause window of a held call (Publish, Delete, GC, and every kind of read held between its look at the index and its use "
+             "of it) x one or two other calls of every kind: the driver enumerates the sequential orders "
              "consistent with the recorded real time and accepts when the sequential L1 model returns exactly the results and ends with exactly "
              "the directory listing observed; (b) free-running mixes (incl. page-straddling records against head rewrites) under the Go race "
              "detector, judged by witness-free rules.",
